@@ -20,7 +20,8 @@ theorem C18_facts :
     ∧ Receptor.Facts.ads_tombstone_test = "withdrawn && !si.Time.After(withdrawnAt)"
     ∧ Receptor.Facts.ads_tombstones = true
     ∧ Receptor.Facts.ads_relay = "keepCur:return;s.flood(data, receivedFrom)"
-    ∧ Receptor.Facts.ads_stamp = "collect:Time=time.Now(),under-listenerLock;send:unstamped" := by decide +kernel
+    ∧ Receptor.Facts.ads_stamp = "collect:Time=time.Now(),under-listenerLock;send:unstamped"
+    ∧ Receptor.Facts.ads_close_order = "lock<unregister<withdraw" := by decide +kernel
 
 def about (k : Node × Svc) (m : Msg) : Bool := (m.node, m.svc) == k
 
